@@ -296,6 +296,22 @@ func cmdCheck(args []string) int {
 		}
 		obs = f
 	}
+	if *tier == "quick" && *only == "" {
+		// obligations that are attempted but not claimed are only solved in the thorough tier
+		var f []*Obligation
+		for _, o := range obs {
+			skip := false
+			for _, r := range ps.NoClaim {
+				if ok, _ := regexp.MatchString(r, o.Name); ok {
+					skip = true
+				}
+			}
+			if !skip {
+				f = append(f, o)
+			}
+		}
+		obs = f
+	}
 	genS := time.Since(start).Seconds() - loadS
 
 	// solve
